@@ -121,6 +121,8 @@ pub enum Call {
     Recaps,
     /// decapsulation of a well-formed encapsulation that holds no right-encapsulation at all
     DecapsCrafted,
+    /// re-encapsulation with a public key that predates one of the rights (alone: an error)
+    RecapsStale,
 }
 
 #[derive(Debug)]
@@ -129,6 +131,7 @@ pub enum Output {
     Decapsed { ok: bool },
     /// outcome of the crafted decapsulation, compared with the outcome of the same call alone
     Crafted { outcome: String },
+    Stale { outcome: String },
     Ctx { policy: &'static str, enc: Vec<u8>, body: Vec<u8> },
     Hdr { policy: &'static str, secret: Vec<u8>, hdr: Vec<u8> },
     HdrRt { ok: bool },
@@ -159,6 +162,9 @@ pub fn scenarios(thorough: bool) -> Vec<Scenario> {
     v.push(Scenario { name: "S9 decaps(crafted) | header | header", threads: vec![vec![DecapsCrafted], vec![Header("A::x")], vec![Header("A::y")]] });
     // two threads open the same encapsulation with the same key while a third one encrypts
     v.push(Scenario { name: "S10 decaps | decaps | encrypt", threads: vec![vec![Decaps], vec![Decaps], vec![Encrypt("A::x")]] });
+    // an administrator re-encapsulates with an outdated public key (an error when run alone)
+    // while users encapsulate and decapsulate
+    v.push(Scenario { name: "S11 recaps(stale public key) | encaps | decaps", threads: vec![vec![RecapsStale], vec![Encaps("A::x")], vec![Decaps]] });
     if thorough {
         v.push(Scenario { name: "S6 3 threads x 2 calls", threads: vec![vec![Encrypt("A::x"), Keygen("A::x")], vec![Header("A::x"), Encaps("A::x")], vec![Refresh, Encrypt("A::x")]] });
     } else {
@@ -181,6 +187,31 @@ pub struct Fixture {
     /// enc0 without any right-encapsulation, and what decapsulating it returns when run alone
     pub crafted: XEnc,
     pub crafted_alone: String,
+    /// a public key published before dimension B existed, an encapsulation that needs B, and
+    /// what re-encapsulating the latter with the former returns when run alone
+    pub stale_mpk: MasterPublicKey,
+    pub enc_b: XEnc,
+    pub stale_alone: String,
+}
+
+/// Runs `f` on a thread of its own; `None` if it has not returned after `secs` seconds (the
+/// thread is abandoned: the process is short-lived).
+fn with_timeout<T: Send + 'static>(secs: u64, f: impl FnOnce() -> T + Send + 'static) -> Option<T> {
+    let (tx, rx) = std::sync::mpsc::channel();
+    std::thread::spawn(move || {
+        let _ = tx.send(f());
+    });
+    rx.recv_timeout(Duration::from_secs(secs)).ok()
+}
+
+pub const NO_RETURN: &str = "no return after 20 s (the call blocks forever)";
+
+fn stale_outcome(cc: &Covercrypt, msk: &MasterSecretKey, mpk: &MasterPublicKey, e: &XEnc) -> String {
+    match catch_unwind(AssertUnwindSafe(|| cc.recaps(msk, mpk, e))) {
+        Ok(Ok(_)) => "a new encapsulation".into(),
+        Ok(Err(_)) => "error".into(),
+        Err(_) => "panic".into(),
+    }
 }
 
 fn crafted_outcome(cc: &Covercrypt, k: &UserSecretKey, e: &XEnc) -> String {
@@ -198,6 +229,7 @@ pub const PY: &str = "A::y && B::u && H::lo || A::y && B::u && H::hi || A::y && 
 pub fn fixture() -> Fixture {
     // W1 plus a third dimension B{u, v}: three dimensions and policies with four targets
     let mut b = w1();
+    let stale_mpk = MasterPublicKey::deserialize(&ser(&b.mpk)).expect("public key round-trip");
     b.msk.access_structure.add_anarchy("B".into()).unwrap();
     for n in ["u", "v"] {
         b.msk.access_structure.add_attribute(cosmian_cover_crypt::QualifiedAttribute::new("B", n), cosmian_cover_crypt::EncryptionHint::Classic, None).unwrap();
@@ -216,8 +248,21 @@ pub fn fixture() -> Fixture {
         XEnc::deserialize(&w.encode()).expect("an encapsulation without items deserialises")
     };
     // alone, on an instance of its own (a panic there cannot reach the shared instance)
-    let crafted_alone = crafted_outcome(&Covercrypt::default(), &k_x, &crafted);
-    Fixture { msk_bytes: ser(&b.msk), mpk: b.mpk, k_x, k_y, k_hi, k_yall, enc0, secret0: s0.to_vec(), issued_usk: ser(&issued), crafted, crafted_alone }
+    let crafted_alone = {
+        let (k, e) = (k_x.clone(), crafted.clone());
+        with_timeout(20, move || crafted_outcome(&Covercrypt::default(), &k, &e)).unwrap_or_else(|| NO_RETURN.to_string())
+    };
+    let (_, enc_b) = b.cc.encaps(&b.mpk, &p("A::x && B::u")).unwrap();
+    let stale_alone = {
+        let (mb, pb, e) = (ser(&b.msk), ser(&stale_mpk), enc_b.clone());
+        with_timeout(20, move || {
+            let msk = MasterSecretKey::deserialize(&mb).expect("msk");
+            let mpk = MasterPublicKey::deserialize(&pb).expect("mpk");
+            stale_outcome(&Covercrypt::default(), &msk, &mpk, &e)
+        })
+        .unwrap_or_else(|| NO_RETURN.to_string())
+    };
+    Fixture { msk_bytes: ser(&b.msk), mpk: b.mpk, k_x, k_y, k_hi, k_yall, enc0, secret0: s0.to_vec(), issued_usk: ser(&issued), crafted, crafted_alone, stale_mpk, enc_b, stale_alone }
 }
 
 type E = Aes256Gcm;
@@ -265,6 +310,7 @@ fn run_call(cc: &Covercrypt, fx: &Fixture, msk: &mut MasterSecretKey, usk: &mut 
             Err(e) => Output::Failed(format!("rekey: {e}")),
         },
         Call::DecapsCrafted => Output::Crafted { outcome: crafted_outcome(cc, &fx.k_x, &fx.crafted) },
+        Call::RecapsStale => Output::Stale { outcome: stale_outcome(cc, msk, &fx.stale_mpk, &fx.enc_b) },
         Call::Recaps => match cc.recaps(msk, &fx.mpk, &fx.enc0) {
             Ok((s, e)) => Output::Enc { policy: "A::x", secret: s.to_vec(), enc: ser(&e) },
             Err(e) => Output::Failed(format!("recaps: {e}")),
@@ -455,6 +501,7 @@ pub fn judge(fx: &Fixture, outputs: &[Vec<Output>]) -> Option<(String, String)> 
             match o {
                 Output::Failed(m) => return Some(("C19.b".into(), format!("thread {t}: {m}"))),
                 Output::Crafted { outcome } if *outcome != fx.crafted_alone => return Some(("C19.b".into(), format!("thread {t}: decapsulating the encapsulation without items gave {outcome:?}, alone it gives {:?}", fx.crafted_alone))),
+                Output::Stale { outcome } if *outcome != fx.stale_alone => return Some(("C19.b".into(), format!("thread {t}: re-encapsulating with a public key that predates a right gave {outcome:?}, alone it gives {:?}", fx.stale_alone))),
                 Output::Decapsed { ok: false } => return Some(("C19.b".into(), format!("thread {t}: decaps did not return the known secret"))),
                 Output::HdrRt { ok: false } => return Some(("C19.b".into(), format!("thread {t}: header did not decrypt to its own secret and metadata"))),
                 Output::Enc { policy, secret, enc } => {
@@ -777,6 +824,15 @@ pub fn scenario_main(idx: usize, tier: &str, budget: f64) -> i32 {
     let fx = Arc::new(fixture());
     let scs = scenarios(thorough);
     let sc = &scs[idx];
+    // a call that does not even return when run alone on a fresh instance: report it from the
+    // scenarios that contain the call, do not explore them (every schedule would hang)
+    for (call, alone) in [("DecapsCrafted", &fx.crafted_alone), ("RecapsStale", &fx.stale_alone)] {
+        if alone.as_str() == NO_RETURN && sc.threads.iter().flatten().any(|c| format!("{c:?}") == call) {
+            println!("SCENARIO-RESULT {}", json!({"scenario": sc.name, "schedules_executed": 0, "distinct_critical_section_orders": 0, "free_running_executions": 0,
+                "violation": {"clause": "C19.a", "message": format!("{call} on a fresh instance, alone: {NO_RETURN}"), "schedule": []}}));
+            return 0;
+        }
+    }
     let t0 = std::time::Instant::now();
     let mut orders = BTreeSet::new();
     let mut max_points = 0;
@@ -852,6 +908,23 @@ pub fn check(prop: &str, tier: &str) -> i32 {
     let mut total = 0u64;
     let mut free = 0u64;
     let mut per = vec![];
+    // a scenario process that is still running long after its budget is killed: the run is then a
+    // machinery failure, never a hang
+    let deadline = std::time::Instant::now() + Duration::from_secs_f64(cap_secs * 3.0 + 180.0);
+    let mut children = children;
+    loop {
+        let running = children.iter_mut().filter_map(|c| c.try_wait().ok()).filter(Option::is_none).count();
+        if running == 0 {
+            break;
+        }
+        if std::time::Instant::now() > deadline {
+            for c in children.iter_mut() {
+                let _ = c.kill();
+            }
+            machinery(&format!("{running} scenario process(es) still running {:.0} s after the start (budget {cap_secs} s): killed", cap_secs * 3.0 + 180.0));
+        }
+        std::thread::sleep(Duration::from_millis(100));
+    }
     for (i, c) in selected.iter().copied().zip(children.into_iter()) {
         let out = c.wait_with_output().unwrap_or_else(|e| machinery(&format!("scenario process: {e}")));
         let text = String::from_utf8_lossy(&out.stdout).to_string();
@@ -897,6 +970,7 @@ pub fn check(prop: &str, tier: &str) -> i32 {
 pub fn soak_main(total: u64, threads: u64) -> i32 {
     use cosmian_crypto_core::reexport::rand_core::RngCore;
     let fx = Arc::new(fixture());
+    println!("SOAK-START");
     let cc = Arc::new(Covercrypt::default());
     let done = Arc::new(std::sync::atomic::AtomicU64::new(0));
     let bad = Arc::new(Mutex::new(None::<String>));
@@ -971,10 +1045,15 @@ fn soak(run: &mut Run, total: u64) {
     let mut progress = 0u64;
     let mut verdict: Option<Result<u64, String>> = None;
     let mut last_change = std::time::Instant::now();
+    let mut started = false;
+    let spawned = std::time::Instant::now();
     while verdict.is_none() {
         match rx.recv_timeout(Duration::from_millis(500)) {
             Ok(l) => {
-                if let Some(n) = l.strip_prefix("SOAK-PROGRESS ") {
+                if l.starts_with("SOAK-START") {
+                    started = true;
+                    last_change = std::time::Instant::now();
+                } else if let Some(n) = l.strip_prefix("SOAK-PROGRESS ") {
                     let n: u64 = n.trim().parse().unwrap_or(progress);
                     if n != progress {
                         progress = n;
@@ -991,7 +1070,10 @@ fn soak(run: &mut Run, total: u64) {
                 verdict = Some(Err(format!("MACHINERY the soak process ended without a verdict after {progress} acquisitions")));
             }
         }
-        if verdict.is_none() && last_change.elapsed() > Duration::from_secs(20) {
+        if verdict.is_none() && !started && spawned.elapsed() > Duration::from_secs(180) {
+            verdict = Some(Err("MACHINERY the soak process did not finish its set-up within 180 s".to_string()));
+        }
+        if verdict.is_none() && started && last_change.elapsed() > Duration::from_secs(20) {
             verdict = Some(Err(format!("[C19.a] no call returned for 20 s after {progress} of {total} acquisitions of the shared generator by 4 threads: calls block forever")));
         }
     }
